@@ -307,14 +307,14 @@ const preludeSeq = `
    :pattern ((SeqEq a b)))))
 (assert (forall ((a BSeq) (b BSeq)) (! (=> (SeqEq a b) (= a b)) :pattern ((SeqEq a b)))))
 (assert (forall ((a BSeq) (b BSeq)) (! (= (len (cat a b)) (+ (len a) (len b))) :pattern ((cat a b)))))
-(assert (forall ((a BSeq) (b BSeq) (k Int)) (! (= (at (cat a b) k) (ite (< k (len a)) (at a k) (at b (- k (len a))))) :pattern ((at (cat a b) k)))))
+(assert (forall ((a BSeq) (b BSeq) (k Int)) (! (=> (and (<= 0 k) (< k (+ (len a) (len b)))) (= (at (cat a b) k) (ite (< k (len a)) (at a k) (at b (- k (len a)))))) :pattern ((at (cat a b) k)))))
 (assert (forall ((s BSeq) (lo Int) (hi Int)) (! (=> (and (<= 0 lo) (<= lo hi) (<= hi (len s))) (= (len (sub s lo hi)) (- hi lo))) :pattern ((sub s lo hi)))))
 (assert (forall ((s BSeq) (lo Int) (hi Int) (k Int)) (! (=> (and (<= 0 lo) (<= lo hi) (<= hi (len s)) (<= 0 k) (< k (- hi lo))) (= (at (sub s lo hi) k) (at s (+ lo k)))) :pattern ((at (sub s lo hi) k)))))
 (assert (forall ((v Int)) (! (and (= (len (single v)) 1) (= (at (single v) 0) v)) :pattern ((single v)))))
 (assert (forall ((n Int)) (! (=> (>= n 0) (= (len (zeros n)) n)) :pattern ((zeros n)))))
-(assert (forall ((n Int) (k Int)) (! (= (at (zeros n) k) 0) :pattern ((at (zeros n) k)))))
+(assert (forall ((n Int) (k Int)) (! (=> (and (<= 0 k) (< k n)) (= (at (zeros n) k) 0)) :pattern ((at (zeros n) k)))))
 (assert (forall ((a (Array Int Int)) (o Int) (n Int)) (! (=> (>= n 0) (= (len (view a o n)) n)) :pattern ((view a o n)))))
-(assert (forall ((a (Array Int Int)) (o Int) (n Int) (k Int)) (! (= (at (view a o n) k) (select a (+ o k))) :pattern ((at (view a o n) k)))))
+(assert (forall ((a (Array Int Int)) (o Int) (n Int) (k Int)) (! (=> (and (<= 0 k) (< k n)) (= (at (view a o n) k) (select a (+ o k)))) :pattern ((at (view a o n) k)))))
 (assert (forall ((a BSeq)) (! (and (= (cat a empty) a) (= (cat empty a) a)) :pattern ((cat a empty)) :pattern ((cat empty a)))))
 ; (associativity of cat is deliberately not an axiom: it is a matching-loop generator; contracts
 ;  write concatenations left-nested, as the code builds them)
